@@ -12,16 +12,20 @@ ReadPointsOf(st) == {Top, st.vis} \cup st.snaps
 \* C01 / C02 / C13: point reads equal the ordered-map oracle at the newest snapshot and
 \* at every held snapshot (a "PANIC" read never equals an oracle value)
 PReadsRefine(st, a, keys) ==
-    \A S \in ReadPointsOf(st) : \A k \in keys :
-        Defined(a, k, S) => ReadAt(st, k, S) = Oracle(a, k, S)
+    \A S \in ReadPointsOf(st) :
+        LET L == LiveAt(a, S) IN
+        \A k \in keys : DefinedL(a, L, k, S) => ReadAt(st, k, S) = OracleL(L, k, S)
 
 \* C03 (full range): scans equal the oracle's scan
-OnlyDefined(sq, a, S) == SelectSeq(sq, LAMBDA p : Defined(a, p[1], S))
+OnlyDefinedL(sq, a, L, S) ==
+    IF a.haz = {} /\ a.taint = {} THEN sq ELSE SelectSeq(sq, LAMBDA p : DefinedL(a, L, p[1], S))
+OnlyDefined(sq, a, S) == OnlyDefinedL(sq, a, LiveAt(a, S), S)
 
 PScansRefine(st, a) ==
     \A S \in ReadPointsOf(st) :
-        LET r == ScanAt(st, S, FullBounds) IN
-        OnlyDefined(r, a, S) = OnlyDefined(OracleScan(a, S, FullBounds), a, S)
+        LET r == ScanAt(st, S, FullBounds)
+            L == LiveAt(a, S) IN
+        OnlyDefinedL(r, a, L, S) = OnlyDefinedL(ScanOf(L, S, FullBounds), a, L, S)
 
 \* C07: structure of a version
 RunSound(run, T) ==
@@ -51,7 +55,7 @@ PStructureSound(st) == \A i \in 1..Len(st.hist) : VersionSound(st.hist[i], st.tb
 \* a separated value ("I", pointer into a blob file) is the same write as an inline one
 Norm(e) == IF e.t = "I" THEN [e EXCEPT !.t = "V"] ELSE e
 StoredEntries(st) == {Norm(e) : e \in UNION {TEff(st.tbl[t]) : t \in AllIds(Latest(st).lv)}}
-PNoInvention(st, a) == StoredEntries(st) \subseteq Durable(a)
+PNoInvention(st, a) == StoredEntries(st) \subseteq DurableEff(a)
 
 \* C04: the newest durable record of a live key is still stored
 PDurableKept(st, a, keys) ==
